@@ -196,6 +196,40 @@ theorem components_joinSlash (ps : List Name) (hne : ps ≠ [])
   simp only [Option.some.injEq, this, if_false]
   exact hbody
 
+/-- what `normalize_workspace_path` accepts -/
+theorem normalizeParts_ok (p : List Char) (ps : List Name) (h : normalizeParts p = .ok ps) :
+    ps ≠ [] ∧ ∀ c ∈ ps, c ≠ [] ∧ '/' ∉ c ∧ isHiddenName c = false := by
+  unfold normalizeParts at h
+  simp only at h
+  split at h
+  · simp at h
+  · split at h
+    · simp at h
+    · split at h
+      · simp at h
+      · simp at h
+      · rename_i ps' hne hloop
+        simp only [Except.ok.injEq] at h
+        subst h
+        obtain ⟨hps, hall⟩ := normLoop_ok _ _ hloop
+        refine ⟨fun e => hne e, ?_⟩
+        intro c hc
+        rw [hps] at hc
+        simp only [List.mem_filterMap] at hc
+        obtain ⟨comp, hm, hcomp⟩ := hc
+        cases comp with
+        | normal s =>
+          simp only [Option.some.injEq] at hcomp
+          subst hcomp
+          obtain ⟨h1, h2, _, _⟩ := components_normal _ _ hm
+          rcases hall _ hm with h | ⟨s', hs', hh⟩
+          · cases h
+          · cases hs'
+            exact ⟨h1, h2, hh⟩
+        | rootDir => simp at hcomp
+        | curDir => simp at hcomp
+        | parentDir => simp at hcomp
+
 /-! ## C. gates before effects -/
 
 theorem ensureSession_editor (i : Inner) (tok now : Nat) (i' : Inner) (s : Session)
